@@ -31,7 +31,7 @@ class EngineA:
         return M.Exec(s.mir, unwind=s.unwind)
 
     # ---- queries
-    def claim(s, name, term, expect='unsat', kind='claim', required=True, get=None, meaning='', cap=None, extra_pre=(), pre=None, replay=None):
+    def claim(s, name, term, expect='unsat', kind='claim', required=True, get=None, meaning='', cap=None, extra_pre=(), pre=None, replay=None, cases=None):
         """`term` is the NEGATED property (a counterexample description); expect unsat. For vacuity twins expect sat."""
         if term is False and expect == 'unsat':
             q = common.Query(name, '', expect, kind, required, cap, 0, meaning)
@@ -43,7 +43,7 @@ class EngineA:
             script, nd = M.emit([], extra_pre=extra_pre, get=get, pre=pre)
         else:
             script, nd = M.emit([term], extra_pre=extra_pre, get=get, pre=pre)
-        q = common.Query(name, script, expect, kind, required, cap, max(nd, 1), meaning)
+        q = common.Query(name, script, expect, kind, required, cap, max(nd, 1), meaning, cases=cases)
         q.get = get
         q.replay = replay
         s.queries.append(q)
@@ -61,13 +61,13 @@ class EngineA:
         q.obl = live
         return q
 
-    def decide(s, cap=None, z3cap=None):
+    def decide(s, cap=None, z3cap=None, grace=None):
         ck = s.ck
         cap = cap or (120 if ck.tier == 'quick' else 1800)
-        z3cap = (20 if ck.tier == 'quick' else 120) if z3cap is None else z3cap
+        grace = (2 if ck.tier == 'quick' else 20) if grace is None else grace
         qs = s.queries
         s.queries = []
-        common.run_queries(qs, cap, z3cap, log=ck.log)
+        common.run_queries(qs, cap, grace, log=ck.log)
         ck.absorb(qs)
         for f in s.ex.encoded:
             if f not in ck.functions:
@@ -98,7 +98,7 @@ class EngineA:
         res = []
         for (g, c, d, k) in q.obl:
             script, nd = M.emit([M.AND(g, c)], get=q.get)
-            v, out, dt = common.run_solver('cvc5', script, cap)
+            v, out, dt, by = common.portfolio(script, cap, 0, 'bisect')
             if v == 'sat':
                 res.append((d, k, common.parse_model(out)))
         return res
@@ -114,7 +114,7 @@ def pinned_eval(inputs, outputs, cap=60):
     pins = [M.CMP('=', k, v) if not isinstance(v, bool) else (k if v else M.NOT(k)) for k, v in inputs.items()]
     outs = [o for o in outputs if isinstance(o, str)]
     script, _ = M.emit(pins, get=outs)
-    v, out, dt = common.run_solver('cvc5', script, cap)
+    v, out, dt, by = common.portfolio(script, cap, 0, 'pinned')
     if v != 'sat':
         raise common.Inconclusive(f'pinned evaluation not sat ({v}): encoder or assumptions inconsistent at {inputs}')
     m = common.parse_model(out)
